@@ -15,7 +15,7 @@ from fractions import Fraction
 
 from hypothesis import strategies as st
 
-from vf import core, rngenum
+from vf import c19_rng, core, rngenum
 from vf import tablesim as ts
 
 PROP = "C19"
@@ -32,7 +32,8 @@ RULE = ("Hypothesis-generated dynamic programs: an ego behavior (or a top-level 
         "that differs from the set of not-yet-run items.  Distinct = SHA-1 of the program IR.")
 ASSUMPTIONS = [
     "Scenic draws run-time randomness only through the `random` module attributes patched by "
-    "vf.rngenum (a bypassing draw breaks the sum-to-1 self check -> exit 2)",
+    "vf.rngenum, extended by vf.c19_rng so that affine images of random.random() compared with "
+    "constants stay enumerable (a bypassing draw breaks the sum-to-1 self check -> exit 2)",
     "weights are integers or dyadic rationals, so float accumulation in the implementation is exact",
     "reference interpreter vf.props.c19.Ref: step order from docs/reference/dynamic_scenarios.rst "
     "(scenarios' compose blocks, then monitors, then the time limit, then behaviors), `do` returns "
@@ -54,7 +55,7 @@ GENEROUS_STEPS = 44
 #      | ["letdist", var, dist] | ["takevar", var] | ["logvar", var]
 #      | ["choose"|"shuffle", "list"|"dict", [[name, weight], ...]] | ["do", name]
 #      | ["cond", row, [stmt]] | ["repeat", n, [stmt]]
-# dist = ["uni", [v...]] | ["disc", [[v, w]...]] | ["dr", lo, hi]
+# dist = ["uni", [v...]] | ["disc", [[v, w]...]] | ["dr", lo, hi] | ["drw", lo, [w...]]
 
 def p_dist(d):
     if d[0] == "uni":
@@ -63,6 +64,9 @@ def p_dist(d):
         return "Discrete({" + ", ".join(f"{v!r}: {w!r}" for v, w in d[1]) + "})"
     if d[0] == "dr":
         return f"DiscreteRange({d[1]!r}, {d[2]!r})"
+    if d[0] == "drw":
+        ws = ", ".join(repr(w) for w in d[2])
+        return f"DiscreteRange({d[1]!r}, {d[1] + len(d[2]) - 1!r}, weights=({ws},))"
     raise ValueError(d)
 
 
@@ -197,6 +201,8 @@ class Ref:
         if d[0] == "dr":
             n = d[2] - d[1] + 1
             return d[1] + self.en.choose([Fraction(1, n)] * n)
+        if d[0] == "drw":  # integer low + i with probability proportional to weights[i]
+            return d[1] + self.en.choose([Fraction(w) for w in d[2]])
         raise ValueError(d)
 
     def pick(self, form, remaining):
@@ -331,6 +337,7 @@ def selfcheck():
     if _selfchecked:
         return
     rngenum.selftest()
+    c19_rng.selftest()
     H, Q = Fraction(1, 2), Fraction(1, 4)
     defs = [{"name": "A", "pre": None, "body": [["take", "a"]]},
             {"name": "B", "pre": "p", "body": [["take", "b"]]}]
@@ -377,7 +384,7 @@ NAMES = ["A", "B", "C", "D"]
 
 @st.composite
 def dists(draw):
-    k = draw(st.sampled_from(["uni", "uni", "disc", "dr"]))
+    k = draw(st.sampled_from(["uni", "disc", "dr", "uni", "drw"]))
     if k == "uni":
         return ["uni", draw(st.lists(st.integers(0, 3), min_size=1, max_size=3))]
     if k == "disc":
@@ -388,6 +395,11 @@ def dists(draw):
             ws[0] = 1
         return ["disc", [[v, w] for v, w in zip(vals, ws)]]
     lo = draw(st.integers(-1, 2))
+    if k == "drw":
+        ws = draw(st.lists(st.sampled_from([1, 2, 3, 0.5, 0.25, 0]), min_size=1, max_size=3))
+        if all(w == 0 for w in ws):
+            ws[-1] = 1
+        return ["drw", lo, ws]
     return ["dr", lo, lo + draw(st.integers(0, 2))]
 
 
@@ -626,7 +638,7 @@ def judge(prog):
 
     en = rngenum.Enumerator(MAX_LEAVES * 2)
     try:
-        with rngenum.patched_rng(en):
+        with c19_rng.patched_rng(en):
             got = en.run(one)
     except rngenum.TooManyLeaves:
         out.inconclusive = True
